@@ -56,7 +56,7 @@ P = {
          'order-law-generic bisection proof + Flocq monotonicity proof; boundary-exhaustive correspondence',
          'libstdc++ upper_bound / partial_sum / generate_canonical are modelled (validated by the tie).'),
  'C10': ('Law-generic theorems: an iteration of N calls advances the generator by exactly N x d (N x (d+1) multi-channel) canonical numbers whatever the integrand returns; the stored generator is '
-         'the advanced one; the usage predictor (since the repair of the defect for engine ranges 2^7, 2^14, 2^53) counts what std::generate_canonical takes and equals the cost of every number for any implementation whose consumption is value-independent; supplement Properties_C10m: the same stored positions on every rank of the lock-step MPI model. Real engines (nine standard, engine adaptors with power-of-two ranges, odd moduli, synthetic) are measured against the predictor by a C++-only check; the MPI drivers run under real mpirun with instantiations of std::linear_congruential_engine (increment != 0, odd moduli) against the serial stored generator; the *_iteration functions are called directly with the caller's generator observed at every call and after an exception.',
+         'the advanced one; the usage predictor (since the repair of the defect for engine ranges 2^7, 2^14, 2^53) counts what std::generate_canonical takes and equals the cost of every number for any implementation whose consumption is value-independent; supplement Properties_C10m: the same stored positions on every rank of the lock-step MPI model. Real engines (nine standard, engine adaptors with power-of-two ranges, odd moduli, synthetic) are measured against the predictor by a C++-only check; the MPI drivers run under real mpirun with instantiations of std::linear_congruential_engine (increment != 0, odd moduli) against the serial stored generator; the *_iteration functions are called directly with the generator of the caller observed at every call and after an exception.',
          'induction over calls on the iteration model + translated predictor arithmetic + draw counting on real engines',
          'Value-independence of the consumption of std::generate_canonical is a hypothesis (true of the C++11 algorithm; measured on every engine of the harness).'),
  'C11': ('Real-arithmetic theorems about the model\'s fill1d / fill2d: a finite value goes to flat index ky*bx+kx iff the coordinate lies in that half-open bin, to no bin outside; mid-points enumerate the '
